@@ -7,7 +7,7 @@ import re
 from .lib import decision, guards, paths, pathsens
 from .lib.mir import AnchorLost, Call
 
-CONFIGS_QUICK = ["A"]
+CONFIGS_QUICK = ["A", "R"]
 CONFIGS_THOROUGH = ["A", "R", "ASYNCSTD", "SMOL", "NIO", "GLOMMIO", "NOAPI"]
 TECHNIQUE = ('pairing rules on built MIR (capacity terms vs unchecked writes, store mutation vs size update, payload store vs Content-Length), flag-sensitive must-'
              'pass exploration of the Payload arm of send, representation-invariant lint of IndexMap, literal tables')
@@ -613,7 +613,7 @@ def c03e(ck, prog):
     # without the removal unless it takes an edge establishing `status is not NoContent` (resp. `content is not a stream`)
     # or an edge that finds nothing to remove.
     from .lib import pathsens as _ps
-    gu = prog.inlined(f, 1, lambda caller, callee: callee.crate == caller.crate and (callee.self_ty or "").endswith("response::content::Content"))
+    gu = prog.inlined(f, 2, lambda caller, callee: callee.crate == caller.crate and re.search(r"response::(content::Content|Response)$", callee.self_ty or "") is not None and callee.key != f.key and len(callee.blocks) < 60)
     u_exits = list(gu.exits())
     u_cl = tuple(sorted({c.bb for c in gu.calls_to(r"SetHeaders::<'set>::ContentLength$") if "None" in decision.describe_deep(gu, c.args[1], 3)}))
     u_body = tuple(sorted({bi for bi, st, agg in decision.field_stores(gu, "content") if agg is not None and agg[1].get("variant") == "None"}))
@@ -636,7 +636,8 @@ def c03e(ck, prog):
         return None
     has_stream = any(v.get("name") == "Stream" for k, a in prog.adts.items() if k.endswith("response::content::Content") for v in a.get("variants", []))
     e1, e2, e3 = _escape(u_cl, u_not204, u_nohdr), _escape(u_body, u_not204, u_nobody), (_escape(u_cl, u_notstream, u_nohdr) if has_stream else None)
-    ok_len, ok_body, ok_stream = ok_len and e1 is None, ok_body and e2 is None, ok_stream and e3 is None
+    # (the path form subsumes the site form above, which cannot see removals moved into helpers of Response)
+    ok_len, ok_body, ok_stream = e1 is None, e2 is None, (e3 is None if has_stream else ok_stream)
     ck.ob(R, "204:drops-length", ok_len, f.loc(None), "" if ok_len else "complete() does not remove Content-Length for status 204" + (" on every path: blocks %s reach the exit with a status that may be 204 and the header kept (an arm matched before the status is looked at?)" % e1[:12] if e1 else ""), how="NoContent => ContentLength(None)")
     ck.ob(R, "stream:drops-length", ok_stream, f.loc(None), "" if ok_stream else "complete() does not remove Content-Length for a streaming body", how="Stream => ContentLength(None)")
     ck.ob(R, "204:drops-body", ok_body, f.loc(None), "" if ok_body else "complete() does not drop the body for status 204" + (" on every path: blocks %s reach the exit with a status that may be 204 and the content kept" % e2[:12] if e2 else ""), how="NoContent => content = None")
